@@ -45,6 +45,34 @@ macro_rules! check_value {
             if raw != want || r != w {
                 bad = Some("wire-format-in-guest-memory");
             }
+            // the same through the typed-reference and element-array accessors
+            {
+                use vm_memory::VolatileMemory;
+                let sz = size_of::<$N>();
+                vs.write_slice(&[0u8; 32], 0).unwrap();
+                vs.get_ref::<$W>(5).unwrap().store(w);
+                vs.read_slice(&mut raw, 5).unwrap();
+                if raw != want || vs.get_ref::<$W>(5).unwrap().load() != w {
+                    bad = Some("wire-format-through-typed-reference");
+                }
+                let arr = vs.get_array_ref::<$W>(1, 3).unwrap();
+                let other_w: $W = other.into();
+                for i in 0..3usize {
+                    arr.store(i, if i == 1 { w } else { other_w });
+                }
+                for i in 0..3usize {
+                    vs.read_slice(&mut raw, 1 + i * sz).unwrap();
+                    let expect = if i == 1 { want } else { other.$tobytes() };
+                    if raw != expect || arr.load(i) != (if i == 1 { w } else { other_w }) {
+                        bad = Some("wire-format-through-element-array");
+                    }
+                }
+                let mut back = [other_w; 3];
+                arr.copy_to(&mut back);
+                if back[1] != w || back[0] != other_w {
+                    bad = Some("wire-format-through-array-copy");
+                }
+            }
         }
         if let Some(k) = bad {
             let key = format!("C20/{}/{}", stringify!($W), k);
